@@ -29,6 +29,7 @@ func TestMain(m *testing.M) {
 		fmt.Println("INCONCLUSIVE reference self-test failed:", err)
 		os.Exit(2)
 	}
+	xp.KnownInfinityWord = func() bool { return fw.Known("c01.str2num.infinity-word") }
 	fw.Main(m)
 }
 
